@@ -54,8 +54,38 @@ def containers(lits):
     return out
 
 
+_FRESH = [0]
+
+
+def fresh(ctx, K):
+    """An empty formula of class K: mostly K(), every few calls a deep copy (copy.deepcopy, pickle round trip) of an
+    empty K() that stays around -- a deep copy is a formula of its own, what is built on it must not land in the
+    original.  (A shallow copy.copy shares the clause list by definition and is not used.)"""
+    import copy
+    import pickle
+    _FRESH[0] += 1
+    how = _FRESH[0] % 9
+    if how not in (2, 8):
+        return K()
+    F0 = K()
+    try:
+        F = copy.deepcopy(F0) if how == 2 else pickle.loads(pickle.dumps(F0))
+    except Exception:       # noqa: BLE001 - a class that cannot be copied this way decides nothing here
+        ctx.count("copies_not_supported")
+        return K()
+    ctx.count("formulas_obtained_by_" + {2: "deepcopy", 5: "copy", 8: "pickle"}[how])
+    F._vmon_origin = (F0, {2: "copy.deepcopy", 5: "copy.copy", 8: "pickle round trip"}[how])
+    return F
+
+
 def judge(ctx, who, F, n, pred, key, args_repr):
     """F was empty before the builder ran; compare its model set with pred."""
+    origin = getattr(F, "_vmon_origin", None)
+    if origin is not None:
+        F0, how = origin
+        if len(F0) or F0.number_of_variables():
+            ctx.violation(who + ":copy-writes-into-its-original", "%s on a %s of an empty formula: the original now has %d "
+                          "constraint(s) and %d variable(s)" % (args_repr, how, len(F0), F0.number_of_variables()))
     if F.number_of_variables() > n:
         ctx.violation(who + ":numvar", "builder raised the variable count beyond its literals: %s"
                       % args_repr, numvar=F.number_of_variables(), expected_max=n)
@@ -106,7 +136,7 @@ def case_card(ctx, cls, L, shift, repeated=False):
                     pred = (lambda a, c=const, o=pyop: o(nsat(a, lits), c))
                     rep = "%s.%%s(%s %r, %r, %d)" % (cls, kind, lits, op, const)
                     if cls == "CNF":
-                        F = K()
+                        F = fresh(ctx, K)
                         if call_builder(ctx, "CNF.add_linear", F, F.add_linear, make(), op, const):
                             ctx.count("cnf_builder_calls")
                             judge(ctx, "CNF.add_linear[%s]" % op, F, n, pred,
@@ -114,7 +144,7 @@ def case_card(ctx, cls, L, shift, repeated=False):
                     name = {"<=": "cardinality_leq", ">=": "cardinality_geq",
                             "==": "cardinality_eq", "!=": "cardinality_neq"}.get(op)
                     if name:
-                        F = K()
+                        F = fresh(ctx, K)
                         if call_builder(ctx, "%s.%s" % (cls, name), F, getattr(F, name), make(), const):
                             ctx.count(cls.lower() + "_builder_calls")
                             judge(ctx, "%s.%s" % (cls, name), F, n, pred,
@@ -125,14 +155,14 @@ def case_card(ctx, cls, L, shift, repeated=False):
                     ("add_strict_majority", lambda a: 2 * nsat(a, lits) > L),
                     ("add_loose_minority", lambda a: 2 * nsat(a, lits) <= L),
                     ("add_strict_minority", lambda a: 2 * nsat(a, lits) < L)):
-                F = K()
+                F = fresh(ctx, K)
                 if call_builder(ctx, "%s.%s" % (cls, name), F, getattr(F, name), make()):
                     ctx.count(cls.lower() + "_builder_calls")
                     judge(ctx, "%s.%s" % (cls, name), F, n, pred, (name, cls, lits_t, kind),
                           "%s.%s(%s %r)" % (cls, name, kind, lits))
             # parity
             for const in (0, 1, True, False):
-                F = K()
+                F = fresh(ctx, K)
                 if call_builder(ctx, cls + ".add_parity", F, F.add_parity, make(), const):
                     ctx.count(cls.lower() + "_builder_calls")
                     judge(ctx, cls + ".add_parity", F, n,
@@ -241,9 +271,19 @@ def case_unary_mapping(ctx, cls, n, m, edgemask, offset):
             if edgemask is None:
                 st, f = ctx.call(F.new_mapping, n, m)
             else:
-                B = BipartiteGraph(n, m)
-                for e in E:
-                    B.add_edge(*e)
+                rep = (edgemask + r + offset + len(conds[0])) % 4
+                if rep == 1:
+                    from ..ducks import computed_bipartite
+                    B = computed_bipartite(n, m, E)                   # a user's BipartiteGraph subclass with computed edges
+                    ctx.count("sparse_domain_as_user_class")
+                elif rep == 2:
+                    from ..ducks import computed_bipartite
+                    B = computed_bipartite(n, m, E, order="preference", base="BaseBipartiteGraph")   # ... neighbours in its own order
+                    ctx.count("sparse_domain_as_user_class_own_neighbour_order")
+                else:
+                    B = BipartiteGraph(n, m)
+                    for e in E:
+                        B.add_edge(*e)
                 st, f = ctx.call(F.new_sparse_mapping, B)
             if st == "exc":
                 ctx.violation("mapping:create:raises:" + type(f).__name__,
